@@ -132,7 +132,7 @@ class ReqWorld(World):
         return hv[0]
 
     def hv0_for(self, label: str) -> Any:
-        return self._start_hv.get(label, self.hv0())
+        return getattr(self, "_start_hv", {}).get(label, self.hv0())
 
     def hv_next(self, hv, pre, events, post, reports) -> Any:
         released, statuses = hv
